@@ -291,7 +291,7 @@ func (r *Report) selfTest(hs HarnessSpec, ex *Explorer, hr *HarnessReport, vd, r
 		data, _ := json.MarshalIndent(rv, "", " ")
 		dir := filepath.Join(vd, "replays", r.Prop)
 		os.MkdirAll(dir, 0o755)
-		path := filepath.Join(dir, fmt.Sprintf("%s-selftest%d.json", hs.Name, i))
+		path := filepath.Join(dir, fmt.Sprintf("%s-selftest%d-p%d.json", hs.Name, i, os.Getpid())) // (unique per run: two runs of one property may overlap)
 		os.WriteFile(path, data, 0o644)
 		outcome, out := nativeReplay(vd, repo, hs, path)
 		hr.SelfTestsRun++
